@@ -99,6 +99,7 @@ def actLoopC (t : Table) (mode : Nat) (p : List Nat) (input : List Nat) (m : Pas
       else if op == pass_omit then actLoopC t mode p input m max destStartMatch fuel (ic + 1) o destStartReplace newPos vars
       else if op == pass_copy then
         let count := destStartReplace - destStartMatch
+        if count > 0 && destStartReplace + count > max then .fail o vars else
         let o1 := if count > 0 then moveOut o destStartMatch destStartReplace else o
         let dsr := if count > 0 then destStartMatch else destStartReplace
         match copyChars t mode input max (m.endReplace - m.startReplace).toNat m.startReplace m.endReplace o1 with
